@@ -16,7 +16,7 @@ class Src:
           'rv'    -> other rvalue (bin/un/discr/cast...)
           'multi' -> several definitions (user variable assigned more than once)
     """
-    __slots__ = ("kind", "root", "fields", "term", "site", "rv", "text", "local")
+    __slots__ = ("kind", "root", "fields", "term", "site", "rv", "text", "local", "cty", "pv")
 
     def __init__(self, kind, **kw):
         self.kind = kind
@@ -27,6 +27,8 @@ class Src:
         self.rv = kw.get("rv")
         self.text = kw.get("text")
         self.local = kw.get("local")
+        self.cty = kw.get("cty")
+        self.pv = kw.get("pv")
 
     def path(self):
         if self.kind == "path":
@@ -122,13 +124,13 @@ def _extend(s, extra):
     if not extra:
         return s
     n = Src(s.kind, root=s.root, fields=tuple(s.fields) + tuple(extra), term=s.term, site=s.site, rv=s.rv,
-            text=s.text, local=s.local)
+            text=s.text, local=s.local, cty=s.cty, pv=s.pv)
     return n
 
 
 def src_of_operand(fn, o, depth=0, through_calls=()):
     if "c" in o:
-        return Src("const", text=o["c"])
+        return Src("const", text=o["c"], cty=o.get("t"), pv=o.get("pv"))
     return src_of_place(fn, op_place(o), depth, through_calls)
 
 
